@@ -180,6 +180,8 @@ class FsRun:
                     sim.rec("ev", self.hid, sh)
                 wp = run.watch_path()
                 want_bytes = isinstance(wp, bytes)
+                if self.hid == 1 and run.w.get("twin_kind"):
+                    want_bytes = run.w["twin_kind"] == "bytes"
                 for pth in (e.src_path, getattr(e, "dest_path", "")):
                     if pth in ("", b""):
                         continue
